@@ -56,6 +56,10 @@ pub struct Job {
     pub file_order: Vec<String>,
     #[serde(default)]
     pub keep: bool,
+    /// C21: another program (relative path -> contents) compiled to an object in the SAME process
+    /// before this job, to exercise the process-global tables; its outcome is discarded
+    #[serde(default)]
+    pub warm: BTreeMap<String, String>,
 }
 fn default_main() -> String {
     "main.capy".into()
@@ -120,6 +124,9 @@ pub struct JobResult {
     /// set by the parent: "", "timeout", "signal:<n>", "exit:<n>"
     pub crash: String,
     pub compiler_stdout_markers: String,
+    /// set by the parent when the child exited without a result: the end of what it printed
+    #[serde(default)]
+    pub compiler_stdout_tail: String,
     pub wall_ms: u64,
 }
 
